@@ -7,6 +7,7 @@ mod observer;
 mod problem;
 mod rec_ipm;
 mod rec_more;
+mod rec_csc;
 mod replay_qdldl;
 
 use rand::rngs::StdRng;
@@ -70,6 +71,12 @@ fn main() {
         "dist" => cmd_dist(&args),
         "print" => cmd_print(&args),
         "timelimit" => cmd_timelimit(&args),
+        "csc" => {
+            let (lines, meta) = rec_csc::record(args.num("seed", 1), args.get("tier", "quick") == "thorough");
+            write_lines(&args.get("out", "csc.ndjson"), &lines);
+            std::fs::write(args.get("meta", "meta.json"), meta.to_string()).unwrap();
+            println!("{}", meta);
+        }
         "qdldl-replay" => {
             let r = replay_qdldl::replay_file(&args.get("in", "behaviours.ndjson"), &args.get("out", "mismatch.ndjson"));
             println!("{}", r);
